@@ -193,7 +193,8 @@ def call_ext(I, e, s, name, args, kwargs):
         if last in ("islice", "chain"):
             for a in args[:1]:
                 iter_check(I, a, e, last)
-            return AV(["gen"], elem=join_all([a.elem_av() for a in args if a.kinds & ITERABLE]) if args else BOTTOM)
+            return AV(["gen"], elem=join_all([a.elem_av() for a in args if a.kinds & ITERABLE]) if args else BOTTOM,
+                      nonempty=(last == "chain" and any(a.nonempty for a in args)))
         if last == "deque":
             if args:
                 iter_check(I, args[0], e, "deque")
@@ -412,7 +413,7 @@ def obj_method(I, e, s, t, recv, attr, args, kwargs, is_cls=False):
             I.call_func(gi, [recv, args[0]], node=e)
             eff = I.collectors.pop()
             I.collectors[-1].extend(x for x in eff if x.exc != "KeyError")
-            return join(ANY, args[1] if len(args) > 1 else AV(["null"]))
+            return join(recv.vals if recv.vals is not None else ANY, args[1] if len(args) > 1 else AV(["null"]))
         if attr == "update" and args:
             si = I.calls.method("URIDict", "__setitem__")
             el = args[0]
